@@ -43,6 +43,12 @@ type Shrinker interface {
 	Shrink(c *Case) []*Case // candidate smaller cases
 }
 
+// Closer is implemented by properties that create run-time resources in Generate (temp
+// directories); main calls Close once after the last Oracle call.
+type Closer interface {
+	Close()
+}
+
 var registry = map[string]Property{}
 
 func Register(p Property) { registry[p.ID()] = p }
